@@ -60,6 +60,8 @@ def _expr(e: ast.AST, atoms: Dict[str, str], terms: Dict[str, str], vals: Dict[s
     if isinstance(e, ast.Compare) and len(e.ops) == 1 and type(e.ops[0]) in _CMPS:
         a, b = _arith(e.left, terms), _arith(e.comparators[0], terms)
         return f"decide ({a} {_CMPS[type(e.ops[0])]} {b})"
+    if txt in terms or isinstance(e, ast.BinOp):      # truthiness of a number: 0 is false
+        return f"decide ({_arith(e, terms)} ≠ 0)"
     raise NotTranslated(f"test outside the vocabulary: {txt}")
 
 
@@ -159,7 +161,7 @@ def _flatten_if(st: ast.If):
 _LOC_PRESENT = ("self.local_session", "self.local_session is not None", "self.local_session != None", "self.local_user_logged_in")
 
 
-def _pre(stmts: List[ast.stmt], acc, lst, notes: List[str]) -> str:
+def _pre(stmts: List[ast.stmt], acc, lst, notes: List[str], tests: Dict[str, str]) -> str:
     for i, st in enumerate(stmts):
         rest = list(stmts[i + 1:])
         if _is_log(st):
@@ -181,17 +183,20 @@ def _pre(stmts: List[ast.stmt], acc, lst, notes: List[str]) -> str:
             except NotTranslated:
                 t = None
             if t is not None:
-                a = _pre(list(st.body) + rest, list(acc), lst, notes)
-                b = _pre(list(st.orelse) + rest, list(acc), lst, notes)
+                a = _pre(list(st.body) + rest, list(acc), lst, notes, tests)
+                b = _pre(list(st.orelse) + rest, list(acc), lst, notes, tests)
                 return a if a == b else f"(if {t} then {a} else {b})"
             conds, body = _flatten_if(st)
             if lst is None or [ast.unparse(x) for x in body] != [f"{lst}.append(self.local_session)"]:
                 raise NotTranslated(f"statement outside the vocabulary: if {ast.unparse(st.test)}: …")
             if ast.unparse(conds[0]) not in _LOC_PRESENT:
                 raise NotTranslated("the local decision does not start with `self.local_session`")
-            terms = {"self.local_session.last_active_step": "lastL s", "self.local_session_timeout_steps": "lto", "timestep": "t"}
+            terms = {"self.local_session.last_active_step": "last", "self.local_session_timeout_steps": "tmo", "timestep": "t"}
             cs = [_expr(c, _STATE_ATOMS, terms, {}) for c in conds[1:]] or ["true"]
-            acc = acc + [f"(match loc with | some s => if {' && '.join(cs)} then [Sum.inl s] else [] | none => [])"]
+            if "local" in tests:
+                raise NotTranslated("two decisions about the local session")
+            tests["local"] = " && ".join(cs)
+            acc = acc + ["(match loc with | some s => if preTimestepLocalTest nodeOn running (lastL s) lto t then [Sum.inl s] else [] | none => [])"]
             continue
         if isinstance(st, ast.For) and not st.orelse:
             it = ast.unparse(st.iter)
@@ -214,9 +219,12 @@ def _pre(stmts: List[ast.stmt], acc, lst, notes: List[str]) -> str:
                 conds, inner = _flatten_if(body[0])
                 if [ast.unparse(x) for x in inner] != [f"{lst}.append({var})"]:
                     raise NotTranslated(f"loop over the remote sessions: {'; '.join(ast.unparse(x) for x in inner)}")
-                terms = {f"{var}.last_active_step": "lastR s", "self.remote_session_timeout_steps": "rto", "timestep": "t"}
+                terms = {f"{var}.last_active_step": "last", "self.remote_session_timeout_steps": "tmo", "timestep": "t"}
                 cs = [_expr(c, _STATE_ATOMS, terms, {}) for c in conds]
-                acc = acc + [f"((rem.filter (fun s => {' && '.join(cs)})).map Sum.inr)"]
+                if "remote" in tests:
+                    raise NotTranslated("two loops over the remote sessions")
+                tests["remote"] = " && ".join(cs)
+                acc = acc + ["((rem.filter (fun s => preTimestepRemoteTest nodeOn running (lastR s) rto t)).map Sum.inr)"]
                 continue
         raise NotTranslated(f"statement outside the vocabulary: {txt.splitlines()[0]}")
     return "[]"
@@ -231,8 +239,9 @@ def emit() -> str:
     soft = class_def(parse(SOFT), "IOSoftware")
 
     notes: List[str] = []
+    tests: Dict[str, str] = {}
     try:
-        pre = _pre(_body(find_method(usm, "pre_timestep")), [], None, notes)
+        pre = _pre(_body(find_method(usm, "pre_timestep")), [], None, notes, tests)
     except NotTranslated as e:
         pre = f"[] /- not translated: {str(e)[:100].replace('-/', '')} -/"
 
@@ -288,6 +297,10 @@ def emit() -> str:
 
     return f"""set_option linter.unusedVariables false
 namespace Primaite.Gen.SessionTr
+/-- the time-out decisions of `UserSessionManager.pre_timestep` (`last` = the session's `last_active_step`, `tmo` = the time-out parameter
+of its kind, `t` = `timestep`) -/
+def preTimestepLocalTest (nodeOn running : Bool) (last tmo t : Nat) : Bool := {tests.get("local", "false /- no decision about the local session -/")}
+def preTimestepRemoteTest (nodeOn running : Bool) (last tmo t : Nat) : Bool := {tests.get("remote", "false /- no decision about the remote sessions -/")}
 /-- `UserSessionManager.pre_timestep`, translated: the sessions it hands to `_timeout_session`, in order (`Sum.inl` = the local
 session, `Sum.inr` = a remote one); `nodeOn` / `running` = the node's power state is ON / the service's state is RUNNING -/
 def preTimestepInactive {{L R : Type}} (nodeOn running : Bool) (lastL : L → Nat) (lastR : R → Nat) (lto rto t : Nat)
